@@ -92,14 +92,29 @@ async def scenario(b, backend='dict'):
         await w.close()
         return errors, ('refused', r['tagged'][:20])
     await c.cmd(b'SELECT Box')
+    if backend != 'dict':
+        # the maildir backend stores what mailbox.MaildirMessage / the email package re-serialise (known finding
+        # C03-maildir-reserialises-messages): report that once, then check every other clause against the bytes it stored
+        r = await c.cmd(b'FETCH 1 (BODY.PEEK[])')
+        resp = b''.join(u for u in r['untagged'] if b' FETCH ' in u[:20])
+        stored = literal_payload(resp, b'BODY[]')
+        if stored != b:
+            errors.append(('maildir_stores_the_appended_bytes',
+                           f'APPEND of {b!r:.70} is stored and returned as {stored!r:.70} (re-serialised by the email package)'))
+            if not isinstance(stored, bytes) or stored == b'<<missing>>':
+                await w.close()
+                w.cleanup()
+                return errors, ('nostore', len(b))
+            b = stored
+    n_before = len(errors)
     await check_message(c, 1, b, errors, 'appended')
-    if not errors:
+    if len(errors) == n_before:
         await c.cmd(b'COPY 1 Copy')
         await c.cmd(b'MOVE 1 Copy')
         await c.cmd(b'SELECT Copy')
         await check_message(c, 1, b, errors, 'copy')
         await check_message(c, 2, b, errors, 'moved')
-    if not errors:
+    if len(errors) == n_before:
         # octet count of a single-part message in BODYSTRUCTURE vs. the data BODY[1] returns
         r = await c.cmd(b'FETCH 1 (BODYSTRUCTURE BODY.PEEK[1])')
         resp = b''.join(u for u in r['untagged'] if b' FETCH ' in u[:20])
